@@ -393,16 +393,18 @@ impl Store {
                 score(query, &mut hit);
                 hit
             };
+            // the ghost trace is extended right where the record has been scored (not at the filter): a change that moves the
+            // filter elsewhere then fails the invariant `__items0 == hs.filter(passes)` instead of leaving the hints untypable
+            proof {
+                lemma_filter_push(hs, __cur, passes(query));
+                hs = hs.push(__cur);
+            }
             let __keep = {
                 let hit = &__cur;
                 {
                     hit_matches(query, hit)
                 }
             };
-            proof {
-                lemma_filter_push(hs, __cur, passes(query));
-                hs = hs.push(__cur);
-            }
             if !__keep {
                 continue;
             }
